@@ -30,6 +30,7 @@ struct Dom : CompositeBase
         {
             for (auto& f : fields())
             {
+                if (!f.has_setter) continue;
                 // one ordinary value per field (index 2 where it exists, else the last one), plus "absent" (index 0)
                 size_t ord = f.values.size() > 2 ? 2 : f.values.size() - 1;
                 ops.push_back(Op{"set", {t, (long long)ord}, {f.name}});
